@@ -23,7 +23,7 @@ def _uniform_reduction(run, P):
         from ..astutil import LocalDefs
         defs = LocalDefs(f.node)
         c = f"{f.key}:every-result-through-aggregation-func"
-        bad = None
+        bad = unknown = None
         n = 0
         for r in ast.walk(f.node):
             if isinstance(r, ast.Return) and r.value is not None:
@@ -31,10 +31,16 @@ def _uniform_reduction(run, P):
                 nodes, names = defs.closure(r.value)
                 direct = any(isinstance(x, ast.Call) and isinstance(x.func, ast.Name) and x.func.id == "aggregation_func" for e in nodes for x in ast.walk(e))
                 via_result = "result" in names and any(isinstance(st, ast.Assign) and isinstance(st.targets[0], ast.Subscript) and norm(st.targets[0].value) == "result" for st in iter_stmts(f.node.body))
+                handed_on = any(isinstance(x, ast.Call) and any(isinstance(a_, ast.Name) and a_.id == "aggregation_func" for a_ in list(x.args) + [k.value for k in x.keywords]) for e in nodes for x in ast.walk(e))
                 if not (direct or via_result):
-                    bad = r
+                    if handed_on:
+                        unknown = r
+                    else:
+                        bad = r
         if bad is not None:
             run.violation("F-PATH/uniform-reduction", c, where(f, bad), f"{norm(bad)[:90]} does not come from aggregation_func(...): this shortcut computes in the dtype of the data (bool/narrow integers wrap or saturate) and ignores the keyword arguments")
+        elif unknown is not None:
+            run.incomplete("F-PATH/uniform-reduction", c, where(f, unknown), f"{norm(unknown)[:80]}: aggregation_func is handed to another function whose use of it is not followed")
         elif n:
             run.holds("F-PATH/uniform-reduction", c, where(f), f"all {n} return(s) carry results of aggregation_func(gather, axis=-1, **kwargs)")
         else:
@@ -173,31 +179,60 @@ def check(run):
     if ret is None or len(ret.value.elts) != 4:
         run.incomplete("IDX/partition-summary", c, where(g), "helper does not return a 4-tuple")
     else:
-        def calls_in_closure(expr):
-            nodes, _ = defs.closure(expr)
+        from ..loader import FuncInfo
+
+        def calls_in_closure(expr, _defs=None, _f=None, depth=0):
+            """calls in the backward slice of expr; a call to a function of this package is looked through (its whole body), two levels deep"""
+            nodes, _ = (_defs or defs).closure(expr)
             out = []
             for e in nodes:
                 for n in ast.walk(e):
                     if isinstance(n, ast.Call):
-                        out.append(n)
+                        tgt = P.resolve_expr((_f or g).module, n.func, _f or g)
+                        if isinstance(tgt, FuncInfo) and depth < 2:
+                            for st_ in iter_stmts(tgt.node.body):
+                                for m in ast.walk(st_):
+                                    if isinstance(m, ast.Call):
+                                        out.append(m)
+                        else:
+                            out.append(n)
             return out
+        VOCAB = {"cumsum", "concatenate", "array", "argsort", "unique", "zeros", "len", "asarray", "intp", "int64"}
+
         def has(expr, fname, pred=lambda c: True):
             return any((dotted(cc.func) or [""])[-1] == fname and pred(cc) for cc in calls_in_closure(expr))
+
+        def understood(expr):
+            return all((dotted(cc.func) or ["?"])[-1] in VOCAB for cc in calls_in_closure(expr))
         e0, e1, e2, e3 = ret.value.elts
+
         def starts_with_zero(cc):
             a = cc.args[0] if cc.args else None
             return isinstance(a, (ast.Tuple, ast.List)) and a.elts and "0" in norm(a.elts[0]) and "1" not in norm(a.elts[0])
-        problems = []
+
+        def cumsum_into_tail_of_zeros(expr):
+            """b = np.zeros(len(c) + 1, ...); np.cumsum(c, out=b[1:])"""
+            cs = [cc for cc in calls_in_closure(expr) if (dotted(cc.func) or [""])[-1] == "cumsum"]
+            zs = [cc for cc in calls_in_closure(expr) if (dotted(cc.func) or [""])[-1] == "zeros"]
+            for cc in cs:
+                out_ = next((k.value for k in cc.keywords if k.arg == "out"), None)
+                if isinstance(out_, ast.Subscript) and isinstance(out_.slice, ast.Slice) and norm(out_.slice.lower or ast.Constant(0)) == "1" and out_.slice.upper is None and zs:
+                    if any(z.args and norm(z.args[0]).replace(" ", "") in (f"len({norm(cc.args[0])})+1", f"1+len({norm(cc.args[0])})", f"{norm(cc.args[0])}.size+1") for z in zs):
+                        return True
+            return False
+        problems, unknown = [], []
         if not has(e0, "cumsum"):
-            problems.append("change indices are not a cumulative sum of the size counts")
-        if not has(e0, "concatenate", starts_with_zero):
-            problems.append("change indices are not prefixed with 0 (first partition would be skipped)")
+            (problems if understood(e0) else unknown).append("change indices are not a cumulative sum of the size counts")
+        elif not (has(e0, "concatenate", starts_with_zero) or cumsum_into_tail_of_zeros(e0)):
+            (problems if understood(e0) and not has(e0, "zeros") else unknown).append("change indices are not prefixed with 0 (first partition would be skipped)")
         if not has(e1, "argsort", lambda cc: cc.args and norm(cc.args[0]) == param):
-            problems.append(f"sorted face indices are not argsort({param})")
+            (problems if understood(e1) else unknown).append(f"sorted face indices are not argsort({param})")
         if not (has(e2, "unique", lambda cc: cc.args and norm(cc.args[0]) == param) and has(e3, "unique", lambda cc: any(k.arg == "return_counts" for k in cc.keywords))):
-            problems.append("sizes/counts do not come from np.unique(n_nodes_per_face, return_counts=True)")
+            (problems if understood(e2) and understood(e3) else unknown).append("sizes/counts do not come from np.unique(n_nodes_per_face, return_counts=True)")
         if problems:
             run.violation("IDX/partition-summary", c, where(g, ret), "; ".join(problems))
+        elif unknown:
+            run.incomplete("IDX/partition-summary", c, where(g, ret), "idiom not recognised: " + "; ".join(unknown))
         else:
             run.holds("IDX/partition-summary", c, where(g, ret), "argsort of sizes; unique sizes with counts; cumulative change indices prefixed by 0")
     # node->edge: gather over edge_node_connectivity, axis=-1
